@@ -1037,6 +1037,7 @@ class SortValues(BaseSetIndexSortValues):
             _divisions_by,
             _divisions_by._meta._constructor(divisions).sort_values(),
             ascending=self._divisions_ascending,
+            na_position=self.na_position,
         )
         assigned = Assign(self.frame, "_partitions", partitions)
         shuffled = Shuffle(
@@ -1057,12 +1058,20 @@ class SortValues(BaseSetIndexSortValues):
 
         if isinstance(parent, Head):
             return NFirst(
-                self.frame, n=parent.n, _columns=self.by, ascending=self.ascending
+                self.frame,
+                n=parent.n,
+                _columns=self.by,
+                ascending=self.ascending,
+                na_position=self.na_position,
             )
 
         if isinstance(parent, Tail):
             return NLast(
-                self.frame, n=parent.n, _columns=self.by, ascending=self.ascending
+                self.frame,
+                n=parent.n,
+                _columns=self.by,
+                ascending=self.ascending,
+                na_position=self.na_position,
             )
 
         if isinstance(parent, Filter) and self._filter_passthrough_available(
